@@ -124,13 +124,20 @@ def builders(ctx, s: Sib):
             s.cmp("SYM-1", f"{cls}._build_measurement_intermediates: {k}[s] uses orbital set s (and h1[s])",
                   getitem(v, const(0)), getitem(v, const(1)), e.fi, None, hyp_b=sw,
                   what=f"{k}[0] with 0<->1 == {k}[1]")
+    # the per-determinant helper, with its parameters as noci._build_measurement_intermediates passes them (its
+    # signature -- a ham_data dictionary or the arrays themselves, in whatever order -- is private to the class)
     e = s.E("noci", "_rot_orbs_single_det")
-    sw = swap_map([(sym("trial_up"), sym("trial_dn")), (key(HD, "h1", 0), key(HD, "h1", 1))])
-    r = e.result
-    for i, k in enumerate(("rot_h1", "rot_chol")):
-        v = strip_wrappers(getitem(r, const(i)))
-        s.cmp("SYM-1", f"noci._rot_orbs_single_det: {k}[s] uses determinant block s (and h1[s])",
-              getitem(v, const(0)), getitem(v, const(1)), e.fi, None, hyp_b=sw)
+    r = s.helper_in_caller_terms("noci", "_rot_orbs_single_det", "_build_measurement_intermediates")
+    if r is None:
+        ctx.rep.note("noci._build_measurement_intermediates: the call of _rot_orbs_single_det was not identified; "
+                     "the spin-block rule does not apply")
+    else:
+        dets = key(WD, "ci_coeffs_dets", 1)
+        sw = swap_map([(getitem(dets, const(0)), getitem(dets, const(1))), (key(HD, "h1", 0), key(HD, "h1", 1))])
+        for i, k in enumerate(("rot_h1", "rot_chol")):
+            v = strip_wrappers(getitem(r, const(i)))
+            s.cmp("SYM-1", f"noci._rot_orbs_single_det: {k}[s] uses determinant block s (and h1[s])",
+                  getitem(v, const(0)), getitem(v, const(1)), e.fi, None, hyp_b=sw)
     # ucisd builder: the beta intermediates are rotated with mo_coeff[1] and built from h1[1]
     e = s.E("ucisd", "_build_measurement_intermediates")
     hb = strip_wrappers(getitem(e.result, const("h1_b")))
